@@ -33,7 +33,7 @@ ASSUMPTIONS = [
 ]
 ALTS = ["scale", "permute", "nan_cells", "nan_month", "all_nan", "absent", "zero", "zero_cells", "negate", "inf_cells", "constant", "shift_days",
         "nan_head", "nan_tail"]
-SUB_ALTS = ["nan_day_partial", "outage3", "nan_day_partial", "outage3", "all_nan", "absent", "scale", "nan_cells", "zero_cells"]
+SUB_ALTS = ["nan_day_partial", "outage3", "nan_day_partial", "outage3", "all_nan", "absent", "scale", "nan_cells", "zero_cells", "zero_night"]
 
 
 def hourly_from_daily(df, c):
@@ -104,6 +104,12 @@ def alter(df, c):
         o[rng.random(n) < 0.1] = np.inf
     elif a == "constant":
         o[:] = 7.0
+    elif a == "zero_night":
+        # the meter reads exactly zero from midnight to 07:00 on every sixth night (a plant that shuts down): hours that are colder
+        # than the day's mean
+        hrs = out.index.hour.values
+        dno = (out.index.tz_localize(None).normalize() - out.index[0].tz_localize(None).normalize()).days
+        o[(hrs < 8) & (dno % 6 == 2)] = 0.0
     elif a == "shift_days":
         # the same readings three days later (another weekday pattern, same level)
         per = 24 if (n > 48 and (out.index[1] - out.index[0]) <= pd.Timedelta(hours=1)) else 1
@@ -277,6 +283,7 @@ def shards(tier, seed):
     for i in range(2):
         out.append({"family": "caltrack", "n": 2 if q else 10, "seed": mix(seed, ID, "caltrack", i)})
     out.append({"family": "caltrack", "fixed": True, "seed": int(seed)})
+    out.append({"family": "daily", "fixed": "daily", "seed": int(seed)})
     return out
 
 
@@ -292,7 +299,27 @@ def fixed_caltrack_cases(seed):
     return out
 
 
+def fixed_daily_subdaily_cases(seed):
+    """daily model, reporting period delivered as hourly readings + hourly weather, through both entry points (cheap: one legacy fit)"""
+    b = {"family": "daily", "profile": "legacy", "tz": "America/Chicago", "start_day": 0, "n": 365, "noise_seed": 3 + seed % 40, "noise": 0.05,
+         "usage": {"base": 20.0, "hs": 1.2, "hb": 50.0, "cs": 0.8, "cb": 68.0}, "weekend_shift": 0.2, "season_shift": 0.0, "south": False,
+         "electric": True}
+    r = {"start_day": 400 + seed % 100, "n": 60, "noise_seed": 6, "observed": True, "T_shift": 0.0, "T_scale": 1.0}
+    out = []
+    for entry in ("frame", "from_series"):
+        for alt in ("zero_night", "zero_cells", "nan_day_partial", "all_nan"):
+            out.append({"kind": "alt", "baseline": b, "rep": r, "alt": "scale", "k": 3.0, "alt_seed": 2, "interim": None, "wx_gaps": [], "subdaily": True,
+                        "sub_alt": alt, "feed_h0": 0, "series_entry": False, "meter_rows_absent": False, "dups": [], "sub_entry": entry})
+    return out
+
+
 def run_shard(spec, rec):
+    if spec.get("fixed") == "daily":
+        from ..hyp import run_judge
+
+        for c in fixed_daily_subdaily_cases(spec["seed"]):
+            run_judge(judge, c, rec)
+        return
     if spec.get("fixed"):
         from ..hyp import run_judge
 
